@@ -421,7 +421,7 @@ func runC17(c *Ctx) {
 	}
 
 	// ---- C17.S
-	c17Sibling(c, p)
+	c17Sibling(c, p, "C17.S")
 
 	// ---- C17.R
 	for fn, want := range map[string]string{"app.isAgentRequest": "agent", "app.isAPIRequest": "api"} {
@@ -485,16 +485,16 @@ func runC17(c *Ctx) {
 }
 
 // c17Sibling checks cachingStore against the Store interface.
-func c17Sibling(c *Ctx, p *Prog) {
+func c17Sibling(c *Ctx, p *Prog, rule string) {
 	pk := p.ModPkgs[ModPath+"/app/cache"]
 	tp := p.ModPkgs[ModPath+"/app/types"]
 	if pk == nil || tp == nil {
-		c.Unk("C17.S", "packages", p, 0, "app/cache or app/types not loaded")
+		c.Unk(rule, "packages", p, 0, "app/cache or app/types not loaded")
 		return
 	}
 	obj := pk.Types.Scope().Lookup("cachingStore")
 	if obj == nil {
-		c.Unk("C17.S", "cachingStore", p, 0, "type cachingStore not found")
+		c.Unk(rule, "cachingStore", p, 0, "type cachingStore not found")
 		return
 	}
 	named := obj.Type().(*types.Named)
@@ -525,14 +525,14 @@ func c17Sibling(c *Ctx, p *Prog) {
 			})
 		}
 	}
-	c.Check("C17.S", "cachingStore:stateless", p, obj.Pos(), hasBacking && stateful == "", "cachingStore holds the store it wraps and at most constant configuration: no in-process state (memo, map) can shadow the authoritative store", fmt.Sprintf("cachingStore has %d fields (%s): in-process state can return stale access/routing decisions", st.NumFields(), stateful))
+	c.Check(rule, "cachingStore:stateless", p, obj.Pos(), hasBacking && stateful == "", "cachingStore holds the store it wraps and at most constant configuration: no in-process state (memo, map) can shadow the authoritative store", fmt.Sprintf("cachingStore has %d fields (%s): in-process state can return stale access/routing decisions", st.NumFields(), stateful))
 	iface := tp.Types.Scope().Lookup("Store").Type().Underlying().(*types.Interface)
 	pure := map[string]bool{"IsBackendUserAllowed": true, "LookupBackend": true, "AddBackend": true, "ListBackends": true, "DeleteBackend": true, "DeleteOldBackends": true, "DeleteOldRequests": true, "ListPendingRequests": true}
 	for k := 0; k < iface.NumMethods(); k++ {
 		m := iface.Method(k)
 		fn := p.Func("app/cache.(*cachingStore)." + objName(m))
 		if fn == nil {
-			c.Bad("C17.S", "cachingStore."+objName(m), p, 0, "method missing")
+			c.Bad(rule, "cachingStore."+objName(m), p, 0, "method missing")
 			continue
 		}
 		var del []ssa.Instruction
@@ -580,9 +580,9 @@ func c17Sibling(c *Ctx, p *Prog) {
 				}
 			}
 		}
-		c.Check("C17.S", "cachingStore."+objName(m), p, fn.Pos(), bad == "", "delegates to BackingStore."+objName(m)+" with its own parameters in the same positions"+map[bool]string{true: " (pure delegation)", false: ""}[pure[objName(m)]], "cachingStore."+objName(m)+" "+bad)
+		c.Check(rule, "cachingStore."+objName(m), p, fn.Pos(), bad == "", "delegates to BackingStore."+objName(m)+" with its own parameters in the same positions"+map[bool]string{true: " (pure delegation)", false: ""}[pure[objName(m)]], "cachingStore."+objName(m)+" "+bad)
 	}
-	ruleStoreKeys(c, p, "C17.S")
+	ruleStoreKeys(c, p, rule)
 }
 
 // ruleStoreKeys: cache/datastore keys are injective encodings of (backend ID,
